@@ -885,9 +885,11 @@ fn check_satb(sh: &mut Shadow, info: &mmtk::verif::GcInfo, live: &HashSet<u64>) 
             // an emergency collection, which clears soft references)
             let _ = live;
             sh.satb = Some(snap);
+            SATB_ACTIVE.store(true, std::sync::atomic::Ordering::SeqCst);
             with_report("C12", |r| r.count("initial_mark_pauses", 1));
         }
         3 => {
+            SATB_ACTIVE.store(false, std::sync::atomic::Ordering::SeqCst);
             if let Some(snap) = sh.satb.take() {
                 let mut checked = 0u64;
                 let mut unreachable_now = 0u64;
@@ -924,14 +926,19 @@ fn check_satb(sh: &mut Shadow, info: &mmtk::verif::GcInfo, live: &HashSet<u64>) 
         _ => {
             // a full pause cancels any snapshot
             sh.satb = None;
+            SATB_ACTIVE.store(false, std::sync::atomic::Ordering::SeqCst);
         }
     }
 }
+
+/// True between an InitialMark and the following FinalMark pause (concurrent marking in progress).
+pub static SATB_ACTIVE: std::sync::atomic::AtomicBool = std::sync::atomic::AtomicBool::new(false);
 
 /// Called by the mutator side when an object is allocated while a SATB snapshot is active.
 pub fn satb_note_alloc(sh: &mut Shadow, id: u64) {
     if let Some(s) = sh.satb.as_mut() {
         s.insert(id);
+        with_report("C12", |r| r.count("objects_allocated_during_concurrent_marking", 1));
     }
 }
 
